@@ -8,6 +8,8 @@ namespace StirVerif.C16
 /-- the value of a setting -/
 inductive CVal where
   | optNat (v : Option Nat) | nat (v : Nat) | bool (v : Bool) | int (v : Int) | tmpl (v : Option Tmpl) | notModelled
+  /-- the four members `zoom_xy`, `zoom_z`, `zoom_size_xy`, `zoom_size_z`: a parameter set, or what the automatic call stored -/
+  | zoomMem (z : Option Nat) (a : Option (Nat × Nat))
   deriving DecidableEq
 
 def St.comp (s : St) : Comp → CVal
@@ -18,7 +20,7 @@ def St.comp (s : St) : Comp → CVal
   | .exam => .optNat s.exam
   | .thr => .nat s.thr
   | .rndPlace => .bool s.rnd
-  | .zoom => .optNat s.zoom
+  | .zoom => .zoomMem s.zoom s.autoZ
   | .useCache => .bool s.useCache
   | .dsFlag => .bool s.dsBool
   | .dsRings => .int s.dsRings
@@ -153,7 +155,13 @@ theorem table_faithful (W : World) (s : St) (op : Op) (f : SetterRow) (hf : rowO
     | none => exact faithful_of_unchanged W s _ _ (by simp [step, downsampleSp, hm])
     | some m =>
       cases hz : s.zoom with
-      | none => exact faithful_of_unchanged W s _ _ (by simp [step, downsampleSp, hm, hz])
       | some z => changed
+      | none =>
+        cases ha : s.autoZ with
+        | some cz => obtain ⟨c, z⟩ := cz; changed
+        | none =>
+          cases ht : s.tmpl with
+          | none => exact faithful_of_unchanged W s _ _ (by simp [step, downsampleSp, hm, hz, ha, ht])
+          | some t => changed
 
 end StirVerif.C16
